@@ -91,7 +91,7 @@ def run(ctx):
     core.build_harness(bins=["solve"])
     rng = ctx.rng
     progs = list(eg.corpus_c21())          # the recorded witness first (Rules/Wf.v WfExamples.Dh)
-    for _ in range(ctx.n(22, 500)):
+    for _ in range(ctx.n(22, 220)):
         progs.append(eg.gen_wf_program(rng))
     cases, meta = [], []
     for i, (p, info) in enumerate(progs):
@@ -126,17 +126,17 @@ def run(ctx):
         if "accepted" not in real[i].values():
             continue
         st = p.symtab()
-        univ = eg.universe(p, depth=2, limit=ctx.n(10, 30))
+        univ = eg.universe(p, depth=2, limit=ctx.n(10, 20))
         for ti, t in enumerate(decl_traits(p)):
             n = 1 + p.traits[ti].nextra
-            for args in arg_tuples(univ, n, ctx.n(25, 200), rng):
+            for args in arg_tuples(univ, n, ctx.n(25, 80), rng):
                 cexprs.append((["D%d" % i], "concl_trait %d D%d %s %s" % (FUEL, i, sx.to_coq(t), sx.to_coq([ground_model(a, st) for a in args]))))
                 cmeta.append((i, "trait", p.traits[ti].name, args))
         for ai, a in enumerate(decl_adts(p)):
             n = p.adts[ai].nparams
             if n == 0 and not p.adts[ai].variants[0]:
                 continue
-            for args in arg_tuples(univ, n, ctx.n(25, 200), rng):
+            for args in arg_tuples(univ, n, ctx.n(25, 80), rng):
                 cexprs.append((["D%d" % i], "concl_adt %d D%d %s %s" % (FUEL, i, sx.to_coq(a), sx.to_coq([ground_model(x, st) for x in args]))))
                 cmeta.append((i, "adt", p.adts[ai].name, args))
     ccodes = eg.coq_codes_retry(ctx, "concl", defs, cexprs, IMPORTS, ["Props/C21.vo"], shard=max(40, len(cexprs) // 16 + 1))
